@@ -35,6 +35,12 @@ AREAS = {
         "targets": ["Bridge/GoPrims.vo", "Bridge/RestPrims.vo", "Proofs/RestRuntimeProofs.vo"],
         "property": "C19",
     },
+    "enum": {
+        "module": "EnumGen",
+        "bridge": "Bridge/EnumBridge.v",
+        "targets": ["Bridge/GoPrims.vo", "Bridge/EnumPrims.vo", "Model/Enum.vo"],
+        "property": "C12",
+    },
 }
 
 GEN_TIMEOUT = 120
